@@ -761,11 +761,43 @@ class Condition(ConditionLike):
                 f"{self.callable.kwargs!r} cannot be written in JSON form."
             )
 
-        out = {key: spec_val}
+        out = {key: _data_path_args_to_json_like(spec_val)}
         if "shared_data" in kwargs:
             return out, kwargs["shared_data"]
         else:
             return out
+
+
+def _data_path_args_to_json_like(spec_val, _depth=0):
+    """Write `DataPath` arguments as data path specs, and escape literal mappings that
+    `ConditionLike.from_spec` would otherwise read as data path specs (it looks at the
+    spec value, and at the items of a list or mapping spec value)."""
+
+    if isinstance(spec_val, valida.datapath.DataPath):
+        return spec_val.to_spec()
+
+    elif isinstance(spec_val, dict):
+        if any(isinstance(k, str) and "\\path" in k for k in spec_val) or (
+            len(spec_val) == 1
+            and all(
+                isinstance(k, str) and k.lower().split(".")[0] == "path"
+                for k in spec_val
+            )
+        ):
+            return {
+                (k.replace("path", "\\path") if isinstance(k, str) else k): v
+                for k, v in spec_val.items()
+            }
+        elif _depth == 0:
+            return {
+                k: _data_path_args_to_json_like(v, _depth=1)
+                for k, v in spec_val.items()
+            }
+
+    elif isinstance(spec_val, (list, tuple)) and _depth == 0:
+        return [_data_path_args_to_json_like(i, _depth=1) for i in spec_val]
+
+    return spec_val
 
 
 class FilterDatumType(enum.Enum):
